@@ -239,4 +239,300 @@ theorem handleEnded_dinv (now : Rat) (n : Nat) (k : K) (h : DInv now k) : DInv n
       · exact ih _ ((dinv_stampFinish now k _ h).shr (shr_finish _ _))
       · exact h
 
+/-! ### the maestro loop -/
+
+theorem handlePending_dinv (now : Rat) (h0 : 0 ≤ now) (l : List Nat) (k : K) (h : DInv now k) :
+    DInv now (handlePending now k l) := by
+  induction l generalizing k with
+  | nil => exact h
+  | cons a rest ih =>
+    unfold handlePending
+    split
+    · rename_i r hr
+      have hr' := h.pend a r hr
+      simp only []
+      refine ih _ ?_
+      have h1 : DInv now (k.setActor a fun x => { x with pending := none }) :=
+        h.shr (shr_setActor _ _ _ (by intro _; exact Or.inr (Or.inl rfl)))
+      split
+      · exact h1
+      · exact h1.ext (handle_ext now _ a r h0 hr')
+    · exact ih _ h
+
+/-- invariant of the maestro loop: the clock is non-negative, the kernel dates are consistent with it, and every
+timer callback executed so far was executed at exactly its date -/
+structure SInv (s : St) : Prop where
+  now0 : 0 ≤ s.now
+  d : DInv s.now s.k
+  fired : ∀ x ∈ s.fired, x.1 = x.2.date
+
+theorem subround_sinv (s : St) (h : SInv s) : SInv (subround s) := by
+  unfold subround
+  simp only []
+  refine ⟨h.now0, ?_, h.fired⟩
+  refine handleEnded_dinv _ _ _ (handlePending_dinv _ h.now0 _ _ ?_)
+  refine DInv.shr ?_ (shr_runAll _ _ _)
+  exact h.d.shr (shr_of _ _ (List.Sublist.refl _) (List.Sublist.refl _) rfl rfl rfl)
+
+def HeapOk (now : Rat) (e : HeapE) : Prop := now ≤ e.date ∧ (e.lat = true → 0 ≤ e.rem)
+
+theorem getD_mem_of_mem_range_filter {α} [Inhabited α] (l : List α) (p : Nat → Bool) (c j : Nat)
+    (hj : ((List.range l.length).filter p)[c]? = some j) : l.getD j default ∈ l ∧ p j = true := by
+  have hmem := List.mem_of_getElem? hj
+  have h1 := List.mem_filter.mp hmem
+  have hlt : j < l.length := List.mem_range.mp h1.1
+  refine ⟨?_, h1.2⟩
+  rw [List.getD_eq_getElem?_getD, List.getElem?_eq_getElem hlt]
+  exact List.getElem_mem hlt
+
+theorem popWindow_dinv (now : Rat) (n : Nat) (s : St) (re : List HeapE) (hn : s.now = now) (h : DInv now s.k)
+    (hre : ∀ e ∈ re, HeapOk now e) :
+    DInv now (popWindow n s re).1.k ∧ (∀ e ∈ (popWindow n s re).2, HeapOk now e) := by
+  induction n generalizing s re with
+  | zero => exact ⟨h, hre⟩
+  | succ n ih =>
+    unfold popWindow
+    simp only []
+    split
+    · exact ⟨h, hre⟩
+    · split
+      · simp only [pick_k]; exact ⟨h, hre⟩
+      · rename_i j hj
+        simp only [pick_k, pick_now] at hj ⊢
+        obtain ⟨hmem, _⟩ := getD_mem_of_mem_range_filter s.k.heap _ _ _ hj
+        have he := h.heap _ hmem
+        split
+        · rename_i hlat
+          apply ih
+          · simpa only [pick_now] using hn
+          · exact h.shr (shr_of _ _ (List.Sublist.refl _) (removeNth_sublist _ _) rfl rfl rfl)
+          · intro e hx
+            rcases List.mem_append.mp hx with hx | hx
+            · exact hre e hx
+            · simp only [List.mem_singleton] at hx
+              subst hx
+              have := he.2 hlat
+              exact ⟨by simp only; grind, by intro hc; cases hc⟩
+        · apply ih
+          · simpa only [pick_now] using hn
+          · refine h.shr ?_
+            refine ⟨List.Sublist.refl _, removeNth_sublist _ _, rfl, ?_, rfl, fun _ => Or.inl rfl⟩
+            simp only [K.setImpl]
+            rw [map_upd_inv]
+            intro _; rfl
+          · exact hre
+
+theorem execAll_sinv (n : Nat) (s : St) (r : Bool) (h : SInv s) : SInv (execAll n s r).1 := by
+  induction n generalizing s r with
+  | zero => exact h
+  | succ n ih =>
+    unfold execAll
+    simp only []
+    split
+    · exact h
+    · rename_i top htop
+      split
+      · exact h
+      · rename_i hnow
+        split
+        · exact ⟨by simpa using h.now0, by simpa using h.d, by simpa using h.fired⟩
+        · rename_i j hj
+          obtain ⟨hmem, hd⟩ := getD_mem_of_mem_range_filter s.k.timers _ _ _ hj
+          simp only [beq_iff_eq] at hd
+          have hle := h.d.tim _ hmem
+          apply ih
+          refine ⟨by simpa using h.now0, ?_, ?_⟩
+          · simp only [pick_now, pick_k]
+            refine h.d.shr (Shr.trans ?_ (shr_fire _ _))
+            exact shr_of _ _ (removeNth_sublist _ _) (List.Sublist.refl _) rfl rfl rfl
+          · intro x hx
+            simp only [List.mem_append, List.mem_singleton, pick_fired, pick_now, pick_k] at hx
+            rcases hx with hx | hx
+            · exact h.fired x hx
+            · subst hx
+              simp only
+              have : top ≤ s.now := Rat.not_lt.mp hnow
+              rw [hd] at hle ⊢
+              exact Rat.le_antisymm hle this
+
+theorem timersLoop_sinv (n : Nat) (s : St) (h : SInv s) : SInv (timersLoop n s) := by
+  induction n generalizing s with
+  | zero => exact h
+  | succ n ih =>
+    unfold timersLoop
+    simp only []
+    have h1 := execAll_sinv s.k.timers.length s false h
+    have h2 : SInv { (execAll s.k.timers.length s false).1 with
+        k := (execAll s.k.timers.length s false).1.k.handleEndedAll (execAll s.k.timers.length s false).1.now } :=
+      ⟨h1.now0, handleEnded_dinv _ _ _ h1.d, h1.fired⟩
+    split
+    · exact ih _ h2
+    · exact h2
+
+/-- the time step never jumps over the next action completion either (the heap top is never in the past) -/
+theorem timeDelta_le_top (now : Rat) (tnext : Option Rat) (x d : Rat) (hx : now ≤ x)
+    (h : timeDelta now tnext (some x) = some d) : now + d ≤ x := by
+  unfold timeDelta at h
+  simp only [Option.map] at h
+  have hn : x - now ≥ 0 := by grind
+  simp only [hn, if_true] at h
+  cases tnext with
+  | none => simp only [Option.map] at h; injection h with h; subst h; grind
+  | some t =>
+    simp only [Option.map] at h
+    split at h <;> (injection h with h; subst h; grind)
+
+theorem DInv.advance {now now' : Rat} {k : K} (h : DInv now k) (hle : now ≤ now')
+    (ht : ∀ t ∈ k.timers, now' ≤ t.date) (hh : ∀ e ∈ k.heap, now' ≤ e.date) : DInv now' k := by
+  refine ⟨ht, fun e he => ⟨hh e he, (h.heap e he).2⟩, ?_, h.pend⟩
+  intro im him
+  obtain ⟨h1, h2⟩ := h.ord im him
+  refine ⟨Rat.le_trans h1 hle, ?_⟩
+  rcases h2 with h2 | h2
+  · exact Or.inl h2
+  · exact Or.inr ⟨h2.1, Rat.le_trans h2.2 hle⟩
+
+theorem minDate_none {l : List Rat} (h : minDate l = none) : l = [] := by
+  cases l with
+  | nil => rfl
+  | cons x xs => unfold minDate at h; split at h <;> simp at h
+
+theorem solveStep_sinv (s : St) (h : SInv s) : SInv (solveStep s (outerDelta s)) := by
+  cases hd : outerDelta s with
+  | none => exact h
+  | some d =>
+    unfold solveStep
+    simp only []
+    have hT : ∀ t ∈ s.k.timers, s.now ≤ t.date := h.d.tim
+    have hd0 : 0 ≤ d := by
+      refine timeDelta_nonneg s.now _ _ d ?_ hd
+      intro t ht
+      have := minDate_mem _ _ ht
+      obtain ⟨x, hx, rfl⟩ := List.mem_map.mp this
+      exact hT x hx
+    have htim : ∀ t ∈ s.k.timers, s.now + d ≤ t.date := by
+      intro t ht
+      cases hm : minDate (s.k.timers.map (·.date)) with
+      | none => have := minDate_none hm; simp at this; rw [this] at ht; simp at ht
+      | some m =>
+        unfold outerDelta at hd
+        rw [hm] at hd
+        have h1 := timeDelta_le_timer _ _ _ _ hd
+        have h2 := minDate_le _ _ hm t.date (List.mem_map.mpr ⟨t, ht, rfl⟩)
+        grind
+    have hheap : ∀ e ∈ s.k.heap, s.now + d ≤ e.date := by
+      intro e he
+      cases hm : minDate (s.k.heap.map (·.date)) with
+      | none => have := minDate_none hm; simp at this; rw [this] at he; simp at he
+      | some m =>
+        unfold outerDelta at hd
+        rw [hm] at hd
+        have hmem := minDate_mem _ _ hm
+        obtain ⟨x, hx, hxm⟩ := List.mem_map.mp hmem
+        have hx0 := (h.d.heap x hx).1
+        have h1 := timeDelta_le_top _ _ m d (by rw [← hxm]; exact hx0) hd
+        have h2 := minDate_le _ _ hm e.date (List.mem_map.mpr ⟨e, he, rfl⟩)
+        grind
+    have hadv : DInv (s.now + d) s.k := h.d.advance (by grind) htim hheap
+    obtain ⟨h1, h2⟩ := popWindow_dinv (s.now + d) s.k.heap.length { s with now := s.now + d } [] rfl hadv
+      (by intro e he; simp at he)
+    have hnow := popWindow_now s.k.heap.length { s with now := s.now + d } []
+    have hfired := popWindow_fired s.k.heap.length { s with now := s.now + d } []
+    refine ⟨?_, ?_, ?_⟩
+    · rw [hnow]; show 0 ≤ s.now + d; have := h.now0; grind
+    · rw [hnow]
+      refine ⟨h1.tim, ?_, h1.ord, h1.pend⟩
+      intro e he
+      rcases List.mem_append.mp he with he | he
+      · exact h1.heap e he
+      · exact h2 e he
+    · rw [hfired]; exact h.fired
+
+theorem sinv_setDone (s : St) (b : Bool) (h : SInv s) : SInv (if b then { s with done := true } else s) := by
+  split
+  · exact ⟨h.now0, h.d, h.fired⟩
+  · exact h
+
+theorem outerTail_sinv (s : St) (dl : Option Rat) (h : SInv s) : SInv (outerTail s dl) := by
+  have h1 : SInv (if dl.isNone && s.k.toRun.isEmpty && !s.k.alive.isEmpty then
+      { s with k := s.k.alive.foldl (fun k a => k.kill a) s.k } else s) := by
+    split
+    · exact ⟨h.now0, h.d.shr (shr_foldl_kill _ _), h.fired⟩
+    · exact h
+  unfold outerTail
+  exact sinv_setDone _ _ h1
+
+theorem outer_sinv (s : St) (h : SInv s) : SInv (outer s) := by
+  rw [outer_eq]
+  split
+  · exact ⟨h.now0, h.d.shr (shr_of _ _ (List.Sublist.refl _) (List.Sublist.refl _) rfl rfl rfl), h.fired⟩
+  · exact outerTail_sinv _ _ (timersLoop_sinv _ _ (solveStep_sinv s h))
+
+theorem step_sinv (s : St) (h : SInv s) : SInv (step s) := by
+  unfold step
+  split
+  · exact h
+  · split
+    · exact outer_sinv s h
+    · exact subround_sinv s h
+
+theorem run_sinv (n : Nat) (s : St) (h : SInv s) : SInv (run n s) := by
+  induction n generalizing s with
+  | zero => exact h
+  | succ n ih => unfold run; exact ih _ (step_sinv s h)
+
+theorem initSt_sinv (progs : List (List Op)) (ties : List Nat) : SInv (initSt progs ties) := by
+  refine ⟨Rat.le_refl, ⟨by simp [initSt], by simp [initSt], by simp [initSt], ?_⟩, by simp [initSt]⟩
+  intro a r hr
+  exfalso
+  simp only [initSt, K.actor, List.getD_eq_getElem?_getD, List.getElem?_map] at hr
+  cases h : progs[a]? <;> simp [h] at hr
+
+/-- the clock only ever stops at the date of a pending timer or action -/
+theorem solveStep_lands (s : St) :
+    (solveStep s (outerDelta s)).now = s.now ∨ (∃ t ∈ s.k.timers, t.date = (solveStep s (outerDelta s)).now) ∨
+    (∃ e ∈ s.k.heap, e.date = (solveStep s (outerDelta s)).now) := by
+  cases hd : outerDelta s with
+  | none => exact Or.inl rfl
+  | some d =>
+    unfold solveStep
+    simp only [popWindow_now]
+    unfold outerDelta timeDelta at hd
+    cases hh : minDate (s.k.heap.map (·.date)) with
+    | none =>
+      rw [hh] at hd
+      simp only [Option.map] at hd
+      cases ht : minDate (s.k.timers.map (·.date)) with
+      | none => rw [ht] at hd; simp at hd
+      | some t =>
+        rw [ht] at hd
+        simp only [Option.map] at hd
+        injection hd with hd
+        obtain ⟨x, hx, hxt⟩ := List.mem_map.mp (minDate_mem _ _ ht)
+        exact Or.inr (Or.inl ⟨x, hx, by rw [hxt, ← hd]; grind⟩)
+    | some m =>
+      rw [hh] at hd
+      simp only [Option.map] at hd
+      obtain ⟨e, he, hem⟩ := List.mem_map.mp (minDate_mem _ _ hh)
+      cases ht : minDate (s.k.timers.map (·.date)) with
+      | none =>
+        rw [ht] at hd
+        simp only [Option.map] at hd
+        split at hd
+        · injection hd with hd
+          exact Or.inr (Or.inr ⟨e, he, by rw [hem, ← hd]; grind⟩)
+        · cases hd
+      | some t =>
+        rw [ht] at hd
+        simp only [Option.map] at hd
+        obtain ⟨x, hx, hxt⟩ := List.mem_map.mp (minDate_mem _ _ ht)
+        split at hd
+        · split at hd
+          · injection hd with hd
+            exact Or.inr (Or.inr ⟨e, he, by rw [hem, ← hd]; grind⟩)
+          · injection hd with hd
+            exact Or.inr (Or.inl ⟨x, hx, by rw [hxt, ← hd]; grind⟩)
+        · injection hd with hd
+          exact Or.inr (Or.inl ⟨x, hx, by rw [hxt, ← hd]; grind⟩)
+
 end SgVerif.TimeCore
